@@ -22,7 +22,8 @@ DIFF = "Coq models and definitional semantics + differential testing against the
 add("C01", "other",
     "Partial. Proved in Coq: the definitional semantics coq/Sem.v obeys the documented language rules (PropC01.v); and compiler "
     "correctness on the pure-expression fragment (ExprSem/ExprVM/ExprCorrect/ExprTop.v): for every expression built from "
-    "int/float/bool/string literals, global variables, all binary operators and unary - # ! ~ at any depth, the code the compiler "
+    "int/float/bool/string literals, global variables, all binary operators, unary - # ! ~, array literals, indexing a[i] and "
+    "slicing a[f:t] at any depth, the code the compiler "
     "model emits in ANY context (operand selector, Discard/ForbidTemp/AcceptTemp/OpDepth/... flags; both temp-register "
     "strategies, the x-op-x shortcut, unary minus as -1*x) run by the VM model from any state leaves exactly Sem's value where "
     "the operand says, keeps the stack below, and raises the same error class; through ByteCode/load/Run and run_tree the "
@@ -30,7 +31,7 @@ add("C01", "other",
     "every session of expression statements and assignments g = e of pure expressions to globals (g = g + 1 is the INC "
     "instruction), failing statements included, each statement gives Sem's value or error class, binds Sem's globals, writes "
     "nothing and leaves the machine ready for the next (C01_simple_sessions_partial). Not proved: the simulation for calls, "
-    "control flow, generators, locals/closures, arrays, output, g = 1 + g (full statement: C01_compile_correct_statement). The property is "
+    "control flow, generators, locals/closures, output, g = 1 + g (full statement: C01_compile_correct_statement). The property is "
     "decided each run by differential testing: generated sessions are run on the real code and compared, inside Coq, with Sem "
     "(property oracle) and with the compiler/VM model (correspondence; bytecode-level agreement of the compiler model was "
     "established on thousands of statements).", COMMON_NOTE, DIFF)
@@ -92,7 +93,8 @@ add("C12", "other",
     "compiled side is proved for pure expressions (C12_pure_expression_any_context, ExprCorrect.v): in every compilation context "
     "- any operand selector and any combination of the Discard/ForbidTemp/AcceptTemp/OpDepth/InFor/InFunc flags, i.e. result used "
     "or discarded, operand of a deeper or shallower operator, temp register allowed or not - the emitted code computes the one "
-    "value Sem defines (or its error), for literals, globals, all operators at any depth, including the equal-operands shortcut. "
+    "value Sem defines (or its error), for literals, globals, all operators, array literals, indexing and slicing at any depth, "
+    "including the equal-operands shortcut. "
     "For statements with effects the compiled side is C01's open statement. Decided each run by metamorphic testing on the real code: every generated expression "
     "is placed in about 45 positions (used/discarded, function tail, loop body, call argument, array element, assignment, return, "
     "yield, generator, typed identity embeddings at several operator depths, condition positions) and value/output/error class "
